@@ -108,8 +108,14 @@ def target_problems(terms, allowed_params, allowed_attrs):
                     walk(b, under_base)
             elif k in ("sub",):
                 walk(t[1], under_base)
-            elif k == "elem":
+            elif k in ("elem", "added"):
                 walk(t[1], under_base)
+            elif k in ("kelem", "inloop"):
+                walk(t[1], under_base)
+                walk(t[2], under_base)
+            elif k == "pkgcall":
+                for _, v in t[2]:
+                    walk(v, under_base)
             elif k == "inst":
                 for _, v in t[2]:
                     walk(v, under_base)
